@@ -66,6 +66,21 @@ Definition v_params (k : kwargs) (ops : list Z) (orig clone : rep) (d_orig d_clo
            && rep_same (rep_of (reported (clone_chainF a (map op_of ops)))) clone)
           (params_ok k orig && rep_same orig clone && zlist_eqb d_orig d_clone).
 
+(* ---------------------------------------------------------------- sequences of constructions / clones / calls *)
+(* Several objects live in ONE process.  [items]: every observation of a reported-parameter tuple in the sequence --
+   right after the construction or clone operation and again at the end of the sequence -- together with the keyword
+   arguments of the object's root constructor call and the clone operations that lead from the root to the object.
+   The model (history-free by construction) must reproduce each of them and the documented rules must hold for each;
+   [seq] are the results (bit patterns, length-prefixed) of the method calls made in the sequence, [alone] the results
+   of the same calls made on the same object built alone in a fresh process: the statement's quantities are functions
+   of the parameters and redshifts only, hence independent of the history. *)
+Definition seq_item_agree (it : kwargs * list Z * rep) : bool :=
+  let '(k, ops, r) := it in rep_same (rep_of (reported (clone_chainF (fill k) (map op_of ops)))) r.
+Definition seq_item_ok (it : kwargs * list Z * rep) : bool :=
+  let '(k, _, r) := it in params_ok k r.
+Definition v_sequence (items : list (kwargs * list Z * rep)) (seq alone : list Z) : Z :=
+  verdict (forallb seq_item_agree items) (forallb seq_item_ok items && zlist_eqb seq alone).
+
 (* ---------------------------------------------------------------- the distance chain, bit-exact *)
 Record chain_out := mkOut {
   o_ez : float; o_int : float; o_Dc : float; o_Dm : float; o_Da : float; o_Dl : float;
